@@ -42,6 +42,7 @@ struct GenOpts {
   int R = 32;           // coordinates in 0..R
   bool allow_zero = true;
   int max_m = 12;
+  int min_m = 2;        // (2 % of the diagrams are empty and 4 % have one interval whatever min_m says)
 };
 
 inline int coord(vh::Rng& r, const GenOpts& o) { return (int)r.below(o.R + 1); }
@@ -55,7 +56,7 @@ inline DiagInfo gen_diagram(vh::Rng& r, const GenOpts& o) {
   DiagInfo d;
   int m;
   unsigned u = (unsigned)r.below(100);
-  if (u < 2) m = 0; else if (u < 6) m = 1; else m = 2 + (int)r.below(o.max_m - 1);
+  if (u < 2) m = 0; else if (u < 6) m = 1; else m = o.min_m + (int)r.below(o.max_m - o.min_m + 1);
   d.style = (int)r.below(6);
   const int unit = 1;
   switch (d.style) {
@@ -150,7 +151,7 @@ inline std::string show(const lsdef::Diagram& D) {
 }
 inline void count_classes(vh::Case& c, const DiagInfo& d) {
   c.count("diag.total");
-  c.count("diag.m." + std::string(d.iv.size() == 0 ? "0" : d.iv.size() == 1 ? "1" : d.iv.size() <= 4 ? "2-4" : d.iv.size() <= 8 ? "5-8" : "9+"));
+  c.count("diag.m." + std::string(d.iv.size() == 0 ? "0" : d.iv.size() == 1 ? "1" : d.iv.size() <= 4 ? "2-4" : d.iv.size() <= 8 ? "5-8" : d.iv.size() < 20 ? "9-19" : "20+"));
   if (d.tie()) c.count("diag.tie");
   if (d.rep) c.count("diag.repeated");
   if (d.eqb) c.count("diag.equal_birth");
